@@ -10,31 +10,32 @@ import (
 
 func TestWorker(t *testing.T) {
 	core.Main(t, core.Engine{Name: "netsim", Campaigns: map[string]core.RunFunc{
-		"C01/paths":    runPaths,
-		"C01/tamper":   runTamper,
-		"C01/expiry":   runExpiry,
-		"C02/paths":    runPaths,
-		"C03/paths":    runPaths,
-		"C03/epic":     runEPIC,
-		"C04/tamper":   runTamper,
-		"C05/spoof":    runSpoof,
-		"C06/linktype": runLinkType,
-		"C07/paths":    runPaths,
-		"C07/scmp":     runSCMP,
-		"C07/ohp":      runOHP,
-		"C08/garbage":  runGarbage,
-		"C09/scmp":     runSCMP,
-		"C10/scmp":     runSCMP,
-		"C10/expiry":   runExpiry,
-		"C11/ports":    runPorts,
-		"C12/ohp":      runOHP,
-		"C13/epic":     runEPIC,
-		"C15/bfdlinks": runBFDLinks,
-		"C21/spao":     runSPAO,
+		"C01/paths":      runPaths,
+		"C01/tamper":     runTamper,
+		"C01/expiry":     runExpiry,
+		"C02/paths":      runPaths,
+		"C03/paths":      runPaths,
+		"C03/epic":       runEPIC,
+		"C04/tamper":     runTamper,
+		"C05/spoof":      runSpoof,
+		"C06/linktype":   runLinkType,
+		"C07/paths":      runPaths,
+		"C07/scmp":       runSCMP,
+		"C07/ohp":        runOHP,
+		"C07/epic":       runEPIC,
+		"C08/garbage":    runGarbage,
+		"C09/scmp":       runSCMP,
+		"C10/scmp":       runSCMP,
+		"C10/expiry":     runExpiry,
+		"C11/ports":      runPorts,
+		"C12/ohp":        runOHP,
+		"C13/epic":       runEPIC,
+		"C15/bfdlinks":   runBFDLinks,
+		"C21/spao":       runSPAO,
 		"C44/dispatcher": runDispatcher,
-		"C17/config":   runConfig,
-		"C22/paths":    runPaths,
-		"C28/combine":  runCombine,
-		"C29/combine":  runCombine,
+		"C17/config":     runConfig,
+		"C22/paths":      runPaths,
+		"C28/combine":    runCombine,
+		"C29/combine":    runCombine,
 	}})
 }
